@@ -6,6 +6,7 @@ import GsModel.Ops.Gather
 import GsModel.Sec.Serve
 import GsModel.Params.Bind
 import GsModel.Pair.Encode
+import GsModel.Doc.Lines
 import GsModel.Schema.Valid
 /-
   Model driver: one JSON request per line on stdin, one JSON response per line on stdout.
@@ -180,6 +181,23 @@ def handleDispatch (j : Json) : Json :=
     | .apiError c => ("apiError", c)
   Json.mkObj [("r", Json.str "ok"), ("kind", Json.str name), ("code", Json.num c)]
 
+def jsonDec (j : Json) : Doc.Dec :=
+  { neg := Diff.J.bool j "neg", int := Diff.J.nat j "int", frac := (Diff.J.arr j "frac").filterMap (fun x => x.getNat?.toOption) }
+
+def decJson (d : Doc.Dec) : Json :=
+  Json.mkObj [("neg", Json.bool d.neg), ("int", Json.num (Lean.JsonNumber.fromNat d.int)), ("frac", Json.arr (d.frac.map (fun n => Json.num (Lean.JsonNumber.fromNat n))).toArray)]
+
+/-- {"op":"doc.roundtrip","kind":"maximum"|"minimum","num":Dec,"excl":bool} → printed text, whether the scanner keeps it, and as what -/
+def handleDoc (j : Json) : Json :=
+  let d := jsonDec ((j.getObjVal? "num").toOption.getD .null)
+  let excl := Diff.J.bool j "excl"
+  let line : Doc.Line := if Diff.J.str j "kind" = "maximum" then .maximum d excl else .minimum d excl
+  let t := Doc.emit line
+  match Doc.parse true t with
+  | some (.maximum v e) => Json.mkObj [("r", Json.str "ok"), ("text", Json.str (String.ofList t.val)), ("kept", Json.bool true), ("num", decJson v), ("excl", Json.bool e)]
+  | some (.minimum v e) => Json.mkObj [("r", Json.str "ok"), ("text", Json.str (String.ofList t.val)), ("kept", Json.bool true), ("num", decJson v), ("excl", Json.bool e)]
+  | _ => Json.mkObj [("r", Json.str "ok"), ("text", Json.str (String.ofList t.val)), ("kept", Json.bool false)]
+
 partial def toJ (j : Json) : Schema.J :=
   match j with
   | .null => .null
@@ -233,6 +251,7 @@ def handle (line : String) : Json :=
     | "ops.gather" => handleGather j
     | "sec.serve" => handleSec j
     | "param.bind" => handleBind j
+    | "doc.roundtrip" => handleDoc j
     | "pair.roundtrip" => handlePair j
     | "resp.dispatch" => handleDispatch j
     | "schema.check" => handleSchemaCheck j
